@@ -529,7 +529,7 @@ class G:
         tk = {"pk": "tablekey", "name": kname, "id": self.nid("tkid"), "pos": None, "bit": 0, "table": table, "row": None}
         ts = {"pk": "tablestruct", "name": self.nid("ts"), "pos": None, "key": kname, "snref": self.chance(40)}
         row = self.pick(rows)
-        if self.opts.get("static_table_row") and self.chance(40):
+        if self.opts.get("static_table_row", True) and self.chance(30):
             tk["row"] = row["name"]
             self.features.add("static-table-row")
         content = self.values_for_struct(row["st"]) if row["st"] is not None else self.simple_value(row["dop"])
